@@ -86,6 +86,11 @@ def obligations(tier, seed):
               "subdivision(unit) = that component times the unit for ns..day, None for week and century", "subdivision",
               ret_shape="Option<Duration>", min_paths=9, functions=["Duration::subdivision", "Duration::decompose", "Unit * i64"]),
     ]
+    obs.append(KaniOb("c11", "c11_compose_exact", "Duration::compose (float path used by the text parser): sign x exact weighted sum for every combination of in-range fields",
+               ["Duration::compose", "Duration::compose_f64", "impl TimeUnits for f64", "impl Mul<f64> for Unit", "impl Add / Neg for Duration"],
+               "days < 4096, hours < 24, minutes < 60, seconds < 60, ms/us/ns < 1000, both signs", tq=7200, tt=14400, tier="thorough"))
+    obs.append(KaniOb("c11", "c11_compose_subsecond", "Duration::compose on the sub-second fields: sign x (ms x 10^6 + us x 10^3 + ns) exactly, for every combination",
+               ["Duration::compose", "Duration::compose_f64", "impl TimeUnits for f64", "impl Mul<f64> for Unit"], "ms, us, ns < 1000 each (10^9 combinations), both signs; other fields zero", tq=2400))
     for idx, name in ((2, "hours"), (3, "minutes"), (4, "seconds"), (5, "milliseconds"), (6, "microseconds"), (7, "nanoseconds")):
         obs.append(mk_epoch_field(idx, name))
     return obs
